@@ -65,6 +65,7 @@ def check_C16(report, tier, seed):
     S.suite_validate(report, tier, seed, "C16")
     S.suite_connect_limits(report, tier, seed, "C16")
     S.suite_huge_publish(report, tier, seed, "C16")
+    S.suite_huge_subscribe(report, tier, seed, "C16")
     import suites_engine as E
     walks = E.run_walks(seed, tier, "engine-c16", 160, 4000, profile=lambda i: "mpstight" if i % 2 == 0 else ("connects" if i % 4 == 1 else "default"))
     corr_ok = E.correspondence(report, walks, "C16")
